@@ -766,6 +766,29 @@ def errprop_rule(ctx, fn_pred, label, cfgs=("A", "B"), floor=10):
                        "%s: an error value (%s) is discarded with `.%s()`: the failure (unreadable "
                        "line, truncated stream, malformed number) is silently turned into absence "
                        "or a default" % (p, ty.split("<", 1)[-1][:60], nm))
+            # ... or by handing a discarding function to an adaptor (`map_while(Result::ok)`,
+            # `filter_map(Result::ok)`), or by flattening an iterator of io::Result items
+            # (`lines().flatten()`): the iteration silently stops or skips at the first error
+            for b, t in fa.calls():
+                for a in t["args"]:
+                    k = op_const(a)
+                    fnp = (k or {}).get("fn", {}).get("path") if k else None
+                    if fnp and "result::Result" in fnp and fnp.rsplit("::", 1)[-1] in (
+                            "ok", "unwrap_or_default", "is_ok", "err", "into_iter", "iter"):
+                        ctx.ob("ERRPROP", "%s|%s|discard-fn:%s" % (cfg, p, fnp.rsplit("::", 1)[-1]), False, fa.loc(b),
+                               "%s: `Result::%s` is handed to %s: an error item (unreadable or "
+                               "malformed line) silently ends or thins the iteration instead of being "
+                               "reported" % (p, fnp.rsplit("::", 1)[-1],
+                                             ([strip_generics(x) for x in callee_paths(t)] or ["?"])[0].rsplit("::", 1)[-1]))
+                ps = [strip_generics(x) for x in callee_paths(t)]
+                nm = ps[0].rsplit("::", 1)[-1] if ps else ""
+                if nm in ("flatten", "flat_map", "filter_map", "map_while") and t["args"]:
+                    pl = op_place(t["args"][0])
+                    ty = fa.fn.locals[pl["l"]]["ty"] if pl else ""
+                    if nm == "flatten" and ("io::Lines<" in ty or "io::Split<" in ty or "io::Bytes<" in ty):
+                        ctx.ob("ERRPROP", "%s|%s|discard-fn:flatten" % (cfg, p), False, fa.loc(b),
+                               "%s: an iterator of io::Result items is flattened: a read error "
+                               "silently skips the item instead of being reported" % p)
     ctx.floor("ERRPROP", "fallible calls on the %s path" % label, n, floor)
 
 
